@@ -42,6 +42,7 @@ KEY_POOLS = [
 ]
 
 
+SELFTEST_MUTANT = 'pop-forgets-ring'
 REQUIRED_PROBES = ['history_with_eviction', 'reentrant_on_miss_run']
 
 
